@@ -74,8 +74,8 @@ func keysFor(shards int) map[string]CacheKey {
 	out := map[string]CacheKey{}
 	var first CacheKey
 	var firstIdx uint32
-	same := []string{"a", "b"}
-	other := []string{"c", "d"}
+	same := []string{"a", "b", "e"}
+	other := []string{"c", "d", "f"}
 	for i := 0; len(same) > 0 || (len(other) > 0 && shards > 1); i++ {
 		k := FromString("k" + strconv.Itoa(i))
 		if first.Hex == "" {
@@ -95,6 +95,7 @@ func keysFor(shards int) map[string]CacheKey {
 	if shards == 1 {
 		out["c"] = FromString("kc")
 		out["d"] = FromString("kd")
+		out["f"] = FromString("kf")
 	}
 	return out
 }
